@@ -1,4 +1,4 @@
-//go:build verif
+//go:build verif && vi_recenthistory_c25
 
 package recent_history
 
